@@ -129,6 +129,10 @@ def digitsBits (bps : Nat) (digits : List Char) : BV4 :=
     | some d => ofNat bps d
     | none => undef bps
 
+/-- a one-character bit literal: `0`, `1`, or `x`/`X` for undefined; nothing else is a bit -/
+def bitLiteral (c : Char) : Option BV4 :=
+  if c == '0' then some [.f] else if c == '1' then some [.t] else if c == 'x' || c == 'X' then some [.x] else none
+
 /-- value of a literal `[width] (b|o|x|d) digits`: the digits' bits, zero-extended to the stated width; ill-formed if the
     stated width (when present and non-zero) is too small -/
 def literal (s : String) : Option BV4 :=
